@@ -28,14 +28,31 @@ type JSONCfg struct {
 // (the white-box harness never lets go-snaps derive a directory from the source location).
 type CfgSpec struct {
 	Dir      string   `json:"dir"`
+	DirStyle string   `json:"dir_style,omitempty"` // "" | trailing | dot | dotdot | double : non-canonical spelling of the same directory
 	Filename string   `json:"filename,omitempty"`
 	Ext      string   `json:"ext,omitempty"`
 	Update   *bool    `json:"update,omitempty"`
 	JSON     *JSONCfg `json:"json,omitempty"`
 }
 
+// dirArg: the (absolute) directory as handed to snaps.Dir – possibly spelled non-canonically.
+func (c CfgSpec) dirArg(root string) string {
+	d := filepath.Join(root, c.Dir)
+	switch c.DirStyle {
+	case "trailing":
+		return d + "/"
+	case "dot":
+		return root + "/./" + c.Dir
+	case "dotdot":
+		return d + "/sub/.."
+	case "double":
+		return root + "//" + c.Dir
+	}
+	return d
+}
+
 func (c CfgSpec) build(root string) *Config {
-	opts := []func(*Config){Dir(filepath.Join(root, c.Dir))}
+	opts := []func(*Config){Dir(c.dirArg(root))}
 	if c.Filename != "" {
 		opts = append(opts, Filename(c.Filename))
 	}
@@ -180,6 +197,8 @@ type Call struct {
 	Doc      BS            `json:"doc,omitempty"`      // json / sjson / yaml text
 	Form     string        `json:"form,omitempty"`     // string | bytes | value
 	Matchers []MatcherSpec `json:"matchers,omitempty"` // json / sjson / yaml
+	// prebuilt, if set, are matcher values built once by the caller and reused across calls (instead of building from Matchers)
+	prebuilt []bothMatcher
 }
 
 func (c Call) standalone() bool { return c.API == "ssnap" || c.API == "sjson" }
@@ -210,7 +229,14 @@ func (c Call) invoke(cfg *Config, t *fakeT) callResult {
 	var jm []match.JSONMatcher
 	var ym []match.YAMLMatcher
 	for _, m := range c.Matchers {
+		if c.prebuilt != nil {
+			break
+		}
 		b := rt.build(m)
+		jm = append(jm, b)
+		ym = append(ym, b)
+	}
+	for _, b := range c.prebuilt {
 		jm = append(jm, b)
 		ym = append(ym, b)
 	}
